@@ -29,6 +29,7 @@ import (
 	"volcano.sh/volcano/pkg/scheduler/plugins"
 	"volcano.sh/volcano/pkg/scheduler/plugins/capacity"
 	"volcano.sh/volcano/pkg/scheduler/plugins/conformance"
+	"volcano.sh/volcano/pkg/scheduler/plugins/drf"
 	"volcano.sh/volcano/pkg/scheduler/plugins/gang"
 	"volcano.sh/volcano/pkg/scheduler/plugins/priority"
 	"volcano.sh/volcano/pkg/scheduler/plugins/proportion"
@@ -42,9 +43,10 @@ const (
 	KConf = 3
 	KProp = 4
 	KCap  = 5
+	KDrf  = 6
 )
 
-var kindName = map[int64]string{KGang: gang.PluginName, KPrio: priority.PluginName, KConf: conformance.PluginName, KProp: proportion.PluginName, KCap: capacity.PluginName}
+var kindName = map[int64]string{KGang: gang.PluginName, KPrio: priority.PluginName, KConf: conformance.PluginName, KProp: proportion.PluginName, KCap: capacity.PluginName, KDrf: drf.PluginName}
 
 type Plug struct {
 	Kind     int64
@@ -183,6 +185,7 @@ type TraceEv struct {
 	Cands  []int64 // 11: candidate ids in the order the action passed them
 	CandSt []int64 // 11: their statuses as passed
 	QOrder []int64 // 11: pop order of the victims queue over these candidates
+	PAlloc []int64 // 11: what the preemptor's job holds (recorder ledger), EncRes
 	Action int64   // index into Spec.Actions
 	obs    []CandObs
 }
@@ -258,12 +261,15 @@ func (p *recPlugin) OnSessionOpen(ssn *framework.Session) {
 			if j, ok := ssn.Jobs[c.Job]; ok {
 				o.JobReady = int64(j.ReadyTaskNum())
 				o.QAlloc = sched.EncRes(w.queueAlloc(sched.ParseID(string(j.Queue))))
+				o.JAlloc = sched.EncRes(w.jobAlloc(jobNum(j.UID)))
 			} else {
 				o.QAlloc = sched.EncRes(api.EmptyResource())
+				o.JAlloc = sched.EncRes(api.EmptyResource())
 			}
 			ev.obs = append(ev.obs, o)
 		}
 		ev.QOrder = PopOrder(ssn, p, cands)
+		ev.PAlloc = sched.EncRes(w.jobAlloc(jobNum(p.Job)))
 		w.mu.Lock()
 		w.Trace = append(w.Trace, ev)
 		w.mu.Unlock()
@@ -452,6 +458,7 @@ func NewWorld(spec Spec) *World {
 	framework.RegisterPluginBuilder(gang.PluginName, gang.New)
 	framework.RegisterPluginBuilder(priority.PluginName, priority.New)
 	framework.RegisterPluginBuilder(conformance.PluginName, conformance.New)
+	framework.RegisterPluginBuilder(drf.PluginName, drf.New)
 	framework.RegisterPluginBuilder(proportion.PluginName, func(a framework.Arguments) framework.Plugin {
 		p, snapf := proportion.VerifNew(a)
 		w.PropSnap = snapf
@@ -487,6 +494,14 @@ func NewWorld(spec Spec) *World {
 	}
 	sw.Ssn = framework.OpenSession(sw.Cache, tiers, nil)
 	return w
+}
+
+// jobAlloc: what the job holds now by the recorder's ledger.
+func (w *World) jobAlloc(j int64) *api.Resource {
+	if r := w.Rec.Share[j]; r != nil {
+		return r.Clone()
+	}
+	return api.EmptyResource()
 }
 
 // queueAlloc: what the queue holds now by the recorder's own ledger (sum over its jobs).
